@@ -2,6 +2,10 @@
 C08 line-protocol driver.
 
   collect <serialised Pattern.Root>   ->  entry=<k1,k2,…> symbols=<formula> rootcalls=<symbols>
+  could <k> (<hexpath> <hextype> <hexident> none|func|other)*k <serialised Pattern.Root>
+                                      ->  could=<0|1> useindex=<0|1>
+      (code.CouldMatchAny and the choice of code.Matches between call sites and entry nodes, for a
+       package whose index resolves the listed symbols as stated; unlisted symbols do not resolve)
 
 The Root tree is serialised by harness/cmd/c08match (`ser`): prefix tokens
 `0` (Go nil) `A` (Any) `Z` (Nil) `S <hex>` `B <hexname> <child>` `O <n> …` `! <child>`
@@ -101,8 +105,51 @@ def insertSorted (x : String) : List String → List String
 
 def sortDedup (l : List String) : List String := l.foldr insertSorted []
 
+/-- parse `k` index-lookup facts -/
+def parseFacts : Nat → List String → Option (List (IndexSymbol × Nat) × List String)
+  | 0, r => some ([], r)
+  | k + 1, p :: t :: i :: res :: r => do
+    let p ← hexDecode p
+    let t ← hexDecode t
+    let i ← hexDecode i
+    let o ← match res with
+      | "none" => some 0
+      | "func" => some 1
+      | "other" => some 2
+      | _ => none
+    let (fs, r') ← parseFacts k r
+    pure ((⟨p, t, i⟩, o) :: fs, r')
+  | _, _ => none
+
+/-- the world the facts describe: object 1 is a function, object 2 is not -/
+def factsWorld (fs : List (IndexSymbol × Nat)) : World where
+  names := fun _ => []
+  isUniverse := fun _ => false
+  lookup := fun s => match fs.lookup s with
+    | some 1 => some 1
+    | some 2 => some 2
+    | _ => none
+  isFunc := fun o => o == 1
+  isType := fun _ => false
+  eqv := fun _ _ => false
+  constVal := fun _ => none
+
+def b01 (b : Bool) : String := if b then "1" else "0"
+
 def step (line : String) : String :=
   match tokens line with
+  | "could" :: k :: rest =>
+    match k.toNat? with
+    | none => "bad-op"
+    | some k =>
+      match parseFacts k rest with
+      | none => "bad-op"
+      | some (fs, toks) =>
+        match parseRoot toks with
+        | none => "bad-op"
+        | some p =>
+          let W := factsWorld fs
+          s!"could={b01 (couldMatchAny W p)} useindex={b01 (couldMatchAny W p && useIndex W (rootCallSymbols p))}"
   | "collect" :: toks =>
     match parseRoot toks with
     | some p =>
